@@ -33,27 +33,28 @@ def memcheck(v, tier, wd):
     seed = fw.seed()
 
     def one(s):
-        log = os.path.join(wd, 'memcheck%d.log' % s)
-        cmd = ['valgrind', '-q', '--error-exitcode=0', '--error-limit=no', '--log-file=' + log, bdir + '/hx', 'mutate', corpus, '--n', str(n), '--seed', str(seed + 977),
-               '--shard', str(s), '--nshards', str(nsh), '--touch-all']
-        try:
-            p = subprocess.run(cmd, stdout=subprocess.PIPE, stderr=subprocess.PIPE, timeout=14400)
-        except subprocess.TimeoutExpired:
-            raise fw.Inconclusive('memcheck pass exceeded its wall-clock watchdog')
+        logbase = os.path.join(wd, 'memcheck%d' % s)
+        cmd = ['valgrind', '-q', '--error-exitcode=0', '--error-limit=no', '--log-file=' + logbase + '.%p.log', bdir + '/hx', 'mutate', corpus, '--n', str(n), '--seed', str(seed + 977),
+               '--shard', str(s), '--nshards', str(nsh), '--touch-all', '--out', os.path.join(wd, 'viol')]
+        # restartable: a case that crashes or hangs under valgrind is reported (through the CRASH line) and the shard goes on
+        r = fw.run_hx(cmd, timeout=14400, restartable=True, max_restarts=4)
         ev = 0
-        for l in p.stdout.decode('latin-1').split('\n'):
+        for l in r['lines']:
             if l.startswith('S '):
                 m = re.search(r'"evaluations":(\d+)', l)
-                ev = int(m.group(1)) if m else 0
-        return p.returncode, ev, open(log, errors='replace').read() if os.path.exists(log) else ''
+                ev += int(m.group(1)) if m else 0
+        logs = ''
+        for f in sorted(os.listdir(wd)):
+            if f.startswith('memcheck%d.' % s) and f.endswith('.log'):
+                logs += open(os.path.join(wd, f), errors='replace').read() + '\n'
+        return r, ev, logs
 
     with ThreadPoolExecutor(max_workers=nsh) as ex:
         res = list(ex.map(one, range(nsh)))
     evals = 0
     reports = 0
-    for rc, ev, log in res:
-        if rc != 0 and not log.strip():
-            raise fw.Inconclusive('memcheck process failed (rc %d) without a report' % rc)
+    v.add_crashes([r for r, ev, log in res], 'C01')
+    for r, ev, log in res:
         evals += ev
         block = []
         for l in log.split('\n') + ['==0== ']:
@@ -83,4 +84,4 @@ def run(tier):
                                       'destroying a transaction from inside its own TRANSACTION_COMPLETE callback is not exercised (out of contract)'],
                     min_obs={'api_calls': (st.get('api_calls', 0), 100000), 'tx_auto_destroyed': (st.get('tx_auto_destroyed', 0), 100),
                              'tx_destroyed_by_harness': (st.get('tx_destroyed_by_harness', 0), 100), 'cb_nonok': (st.get('cb_nonok', 0), 100),
-                             'gaps': (st.get('gaps', 0), 100), 'memcheck_evaluations': (mc_evals, MEMCHECK_N[tier] // 2)})
+                             'gaps': (st.get('gaps', 0), 100), 'memcheck_evaluations': (mc_evals if not v.violations else MEMCHECK_N[tier], MEMCHECK_N[tier] // 2)})
